@@ -118,7 +118,7 @@ func (core *JApiCore) BuildResourceMethodsPathVariables() *jerr.JApiError {
 
 		// Check that all path properties in schema is exists in the path.
 		if len(pp) > 0 {
-			ss := core.getPropertiesNames(pp)
+			ss := core.getPropertiesNames(v.schema.ContentJSight.Children, pp)
 			return v.pathDirective.KeywordError(fmt.Sprintf("Has unused parameters %q in schema", ss))
 		}
 	}
@@ -167,17 +167,23 @@ func (*JApiCore) propertiesToMap(pp []*catalog.SchemaContentJSight) map[string]*
 	return res
 }
 
-func (*JApiCore) getPropertiesNames(pp map[string]*catalog.SchemaContentJSight) string {
+// getPropertiesNames lists the names of the properties pp in the order in which
+// they are written in the schema (order).
+func (*JApiCore) getPropertiesNames(
+	order []*catalog.SchemaContentJSight,
+	pp map[string]*catalog.SchemaContentJSight,
+) string {
 	if len(pp) == 0 {
 		return ""
 	}
 
-	buf := strings.Builder{}
-	for k := range pp {
-		buf.WriteString(k)
-		buf.WriteString(", ")
+	names := make([]string, 0, len(pp))
+	for _, v := range order {
+		if _, ok := pp[*(v.Key)]; ok {
+			names = append(names, *(v.Key))
+		}
 	}
-	return strings.TrimSuffix(buf.String(), ", ")
+	return strings.Join(names, ", ")
 }
 
 func (core *JApiCore) ProcessAllOf() *jerr.JApiError {
